@@ -343,6 +343,56 @@ def oracle_template_free(ck, rng):
                              oracle="template_free_pose_recovery", measured=detail)
 
 
+def oracle_grouped_ranges(ck, rng):
+    """grouped alignment with several groups at a pixel size away from 1: every group is searched over the same range (in nm), so
+    particles displaced by up to that range are recovered in the last group as well as in the first; with one and with two templates"""
+    from acryo import SubtomogramLoader, Molecules, TomogramSimulator
+    from acryo.alignment import ZNCCAlignment, PCCAlignment
+    from scipy.spatial.transform import Rotation
+    tmpl = template()
+    decoy = np.ascontiguousarray(tmpl[::-1, ::-1, :])
+    for it in range(2 if ck.tier == "quick" else 6):
+        scale = [2.0, 0.5, 1.6][it % 3]
+        n = 6
+        Rtrue = Rotation.from_rotvec(rng.normal(size=(n, 3)) * 0.5)
+        ptrue = np.stack([np.array([20.0, 20.0, 20.0 + 26 * j]) + rng.uniform(-0.5, 0.5, size=3) for j in range(n)])
+        sim = TomogramSimulator(order=3, scale=scale)
+        sim.add_molecules(Molecules(ptrue * scale, Rtrue), tmpl)
+        tomo = sim.simulate((40, 40, 26 * n + 14))
+        mpx = 3.0
+        s = np.round(rng.uniform(-mpx, mpx, size=(n, 3)) * 4) / 4
+        for j in range(n):
+            s[j, int(rng.integers(0, 3))] = float(rng.choice([-1, 1])) * (mpx - 0.25)       # close to the edge of the range, in every group
+        p = ptrue - np.stack([Rtrue[j].apply(s[j]) for j in range(n)])
+        mol = Molecules(p * scale, Rtrue, features={"g": [j // 2 for j in range(n)], "k": list(range(n))})
+        ld = SubtomogramLoader(tomo, mol, order=3, scale=scale, output_shape=tmpl.shape)
+        M = [ZNCCAlignment, PCCAlignment][it % 2]
+        for entry in ("align", "align_multi_templates"):
+            c = {"iteration": it, "scale": scale, "model": M.__name__, "entry": entry, "max_shift_px": mpx, "shift_px": s.tolist(), "seed": ck.seed}
+            try:
+                grp = ld.groupby("g")
+                out = grp.align(tmpl, max_shifts=mpx * scale, alignment_model=M) if entry == "align" else \
+                    grp.align_multi_templates([decoy, tmpl], max_shifts=mpx * scale, alignment_model=M)
+                bad = []
+                for key, sub in out:
+                    mo = sub.molecules
+                    ks = mo.features["k"].to_list()
+                    perr = np.abs(mo.pos / scale - ptrue[ks]).max(axis=1)
+                    fs = np.stack([mo.features["align-dz"].to_numpy(), mo.features["align-dy"].to_numpy(), mo.features["align-dx"].to_numpy()], axis=1)
+                    ferr = np.abs(fs - s[ks] * scale).max()
+                    if perr.max() > 0.5 or ferr > 0.5 * scale + 0.006:      # sub-pixel: half a voxel (displacements sit a quarter voxel inside the range edge)
+                        bad.append(f"group {key}: position errors {np.round(perr, 2).tolist()} px, shift features off by {ferr:.3f} nm")
+                    if entry != "align" and mo.features["labels"].to_list() != [1] * len(ks):
+                        bad.append(f"group {key}: labels {mo.features['labels'].to_list()}")
+                detail = "; ".join(bad)
+            except Exception as e:  # noqa
+                detail = f"raised {type(e).__name__}: {e}"
+            ck.oracle_count("grouped_search_range", 1, 1)
+            if detail:
+                ck.violation(what=f"groupby(...).{entry} over three groups at {scale} nm/px, range {mpx} px: {detail}", inp=c,
+                             key={"site": "e2e-grouped-range", "entry": entry}, oracle="grouped_search_range", measured=detail)
+
+
 def run(ck: common.Check):
     ck.design_ref = "DESIGN.md §6 C01"
     ck.trusted_base = TB
@@ -359,6 +409,7 @@ def run(ck: common.Check):
     corr_post_align(ck, rng)
     oracle_e2e(ck, rng)
     oracle_template_free(ck, np.random.default_rng(ck.seed + 10101))
+    oracle_grouped_ranges(ck, np.random.default_rng(ck.seed + 10201))
 
 
 def replay(data):
